@@ -46,8 +46,8 @@ def one(run, task):
 
 
 def _one(run, idx, configs, name, fname, mkargs, outs, in_nostd):
-    ref = None
-    refdesc = None
+    collected = []
+    collected_args = {}
     statuses = {}
     for config in configs:
         if 'nostd' in config and not in_nostd:
@@ -56,6 +56,7 @@ def _one(run, idx, configs, name, fname, mkargs, outs, in_nostd):
             continue
         mod = module(config, run)
         args = mkargs()
+        collected_args[config] = args
         ex = entry.default_exec(mod)
         if config.startswith('devchk'):
             ex.stop_after_failures = 3
@@ -91,17 +92,32 @@ def _one(run, idx, configs, name, fname, mkargs, outs, in_nostd):
                 continue
             if config.startswith('devchk'):
                 continue        # overflow-checked builds: a backend that panics where the others return is the disagreement looked for
-            got = T.concat([r.mem(r.named[o]) for o in outs])
-            if ref is None:
-                ref, refdesc = got, desc
-                ref_ex, ref_r = ex, r
-                ob = check.Obligation(oname + '/reference')
-                ob.n_pairs = 1
-                ob.n_identical = 1
-                ob.status = 'identical'
-                run.add(ob)
+            collected.append((config, arm, desc, oname, ex, r, core))
+    if not collected:
+        return
+    # the returning paths of the first (configuration, arm) partition the input space by their data-dependent conditions (counter
+    # carries, ...): they are the references; every other path is compared with each reference whose conditions are jointly feasible
+    # with its own, under the conjunction of both path conditions
+    ref_key = collected[0][:2]
+    refs = [c_ for c_ in collected if c_[:2] == ref_key]
+    for config, arm, desc, oname, ex, r, core in refs:
+        ob = check.Obligation(oname + '/reference')
+        ob.n_pairs = 1
+        ob.n_identical = 1
+        ob.status = 'identical'
+        run.add(ob)
+    for config, arm, desc, oname, ex, r, core in collected:
+        if (config, arm) == ref_key:
+            continue
+        got = T.concat([r.mem(r.named[o]) for o in outs])
+        for rconfig, rarm, refdesc, _on, ref_ex, ref_r, ref_core in refs:
+            joint = list(core) + [x for x in ref_core if x not in core]
+            if ref_core and core and check.pc_feasible(joint, 20)[0] == 'unsat':
                 continue
-            def ref_again():
+            pcj = list(r.pc) + [x for x in ref_core if x not in r.pc]
+            ref = T.concat([ref_r.mem(ref_r.named[o]) for o in outs])
+
+            def ref_again(ref_ex=ref_ex, ref_r=ref_r):
                 r2 = entry.rerun(ref_ex, ref_r)
                 return T.concat([r2.mem(r2.named[o]) for o in outs])
 
@@ -109,7 +125,8 @@ def _one(run, idx, configs, name, fname, mkargs, outs, in_nostd):
                 r2 = entry.rerun(ex, r)
                 return T.concat([r2.mem(r2.named[o]) for o in outs])
             # both sides are implementation runs: small-cone lemmas are installed as aliases and BOTH paths are re-executed
-            ob = run.equal_spec(oname + '/equals[%s]' % refdesc, got, ref_again, r.pc, timeout_s=120, split=64, impl_fn=this_again)
+            suffix = '' if len(refs) == 1 else '|ref-path %d' % refs.index((rconfig, rarm, refdesc, _on, ref_ex, ref_r, ref_core))
+            ob = run.equal_spec(oname + '/equals[%s%s]' % (refdesc, suffix), got, ref_again, pcj, timeout_s=120, split=64, impl_fn=this_again)
             if ob.status == 'sat':
                 exp = {}
                 off = 0
@@ -117,7 +134,7 @@ def _one(run, idx, configs, name, fname, mkargs, outs, in_nostd):
                     wdt = 8 * r.named[o].size
                     exp[o] = T.extract(ref, off, wdt)
                     off += wdt
-                confirm(run, config, fname, args, ob.model, '%s:%s' % (name.split(':')[0], 'portable' if 'nosimd' in config else (config if 'nostd' in config else arm)),
+                confirm(run, config, fname, collected_args[config], ob.model, '%s:%s' % (name.split(':')[0], 'portable' if 'nosimd' in config else (config if 'nostd' in config else arm)),
                         '%s: %s differs from %s' % (name, desc, refdesc), exp=exp)
 
 
